@@ -2,6 +2,7 @@
 # Spec/Rfc2231.v) are applied to what the implementation emitted; model vs implementation as in C02.
 import json, re
 from common import *
+import msgfull as MF
 from hdrcheck import *
 import gen_hdr as GH
 import c02
@@ -91,11 +92,15 @@ def run(ctx):
     fdiff = [k for k in range(len(fl)) if fi[k] != fm[k]]
     fd = run_model(["spec.decode_disposition\t" + hx(unhx(o)[len(b"Content-Disposition: "):-2]) if len(o) > 8 else "spec.decode_disposition\t-" for o in fi])
     fbad = [(fn[k], d) for k, d in enumerate(fd) if d != "some\t%s\t%s" % (hx(b"attachment"), hx(U(fn[k])))]
+    # whole messages through the public builder: the readers applied to the fields of the real message
+    mrecs = MF.run_cases(ctx, MF.cases(ctx.rng, 150 if ctx.tier == "quick" else 3000))
+    msgbad = MF.judge_c12(ctx, mrecs)
     ctx.cov["correspondence"] = {"hdr.value": {"cases": len(recs), "disagreements": len(diffs)}, "hdr.mailboxes(display names)": {"cases": len(ml), "disagreements": len(mdiff)}, "hdr.cdisp": {"cases": len(fl), "disagreements": len(fdiff)}}
     ctx.cov["oracle"] = {"rfc2047_reader_roundtrip_on_impl": {"cases": len(ok), "failures": len(bad)}, "encoded_words_valid": {"distinct_words": len(wl), "failures": len(wbad)},
-                         "display_name_reader_roundtrip": {"cases": len(dn), "failures": len(nbad)}, "rfc2231_filename_roundtrip": {"cases": len(fn), "failures": len(fbad)}}
+                         "display_name_reader_roundtrip": {"cases": len(dn), "failures": len(nbad)}, "rfc2231_filename_roundtrip": {"cases": len(fn), "failures": len(fbad)},
+                         "whole_message_readers_roundtrip": {"messages": len(mrecs), "failures": len(msgbad)}}
     ctx.cov["exhaustive"] = True
-    ctx.cov["rule"] = "as C02's generators; the extracted readers decode_unstructured / decode_word / decode_phrase / decode_disposition are applied to the implementation's emitted fields and must return the original string; non-trivial = value with a character outside printable ASCII"
+    ctx.cov["rule"] = "as C02's generators; the extracted readers decode_unstructured / decode_word / decode_phrase / decode_disposition are applied to the implementation's emitted fields and must return the original string; the same on whole messages built through the public API (Subject, Message-ID, In-Reply-To, References, User-Agent, Comments, a custom header type, From display name, attachment file name, Content-ID); non-trivial = value with a character outside printable ASCII"
     ctx.sample({"value": ok[50]["value"], "emitted": unhx(ok[50]["impl"]).decode("latin1")[:160]})
     if bad:
         r, det = min(bad, key=lambda t: len(t[0]["value"]))
@@ -107,6 +112,9 @@ def run(ctx):
         ctx.violation({"kind": "oracle", "entry": "Mailbox display name", "name_hex": hx(U(n or "")), "what": det, "failures": len(nbad)})
     if fbad:
         ctx.violation({"kind": "oracle", "entry": "attachment file name", "file_name_hex": hx(U(fbad[0][0])), "reader": fbad[0][1], "failures": len(fbad)})
+    if msgbad:
+        r, det = msgbad[0]
+        ctx.violation({"kind": "oracle", "entry": "message built through the public API", "line": r["line"], "what": det, "failures": len(msgbad)})
     if (diffs or mdiff or fdiff) and not ctx.violations:
         if diffs:
             r = min(diffs, key=lambda r: len(r["value"]))
